@@ -284,6 +284,12 @@ def _add_all_nodes(
                 if "ROI_N_POINTS" in attrs:
                     segmentation = True
                     _convert_ROI_coordinates(element, attrs)
+            # A spot without ROI coordinates gets no "ROI_coords" attribute, so that the
+            # property is flagged as missing for it. (A None value would be written as an
+            # empty polygon that is not missing, and cannot be written at all when no
+            # spot has coordinates.)
+            if "ROI_coords" in attrs and attrs["ROI_coords"] is None:
+                del attrs["ROI_coords"]
 
             # Adding the node and its attributes to the graph.
             try:
